@@ -371,7 +371,9 @@ func dataStep(size uint64, data string, o cOp, r cRes) (ok bool, nsize uint64, n
 		}
 		buf := make([]byte, cPrefix)
 		copy(buf, data)
-		copy(buf[o.Off:], o.Data[:r.Cnt])
+		if o.Off < cPrefix { // the model follows the first cPrefix bytes of a file (and its size)
+			copy(buf[o.Off:], o.Data[:r.Cnt])
+		}
 		end := o.Off + uint64(r.Cnt)
 		nsize = size
 		if end > nsize {
